@@ -134,6 +134,26 @@ func genCase(r *hx.Rand, p profile) []*big.Int {
 		}
 		return OOk
 	}
+	if p.dual && r.Chance(1, 5) {
+		// dual-stack waiters: several requests wait on one interface while its two families are filled by separate calls,
+		// one of them only partly (each waiter has looked at the same idle IPv4 address before it parked)
+		c.On4, c.On6 = true, true
+		c.Cap = 3 + r.Intn(3)
+		c.Batch = 2 + r.Intn(2)
+		c.Types[0], c.Preload[0] = 0, 1
+		c.Tot = ns * c.Cap
+		if npods < 3 {
+			npods = 3
+		}
+		for pod := 1; pod <= 3; pod++ {
+			rid++
+			recs = append(recs, []int{RAlloc, rid, pod, -1, 0})
+			open = append(open, rid)
+			busy[pod], holds[pod] = true, true
+		}
+		recs = append(recs, []int{RAdvance, 300}, []int{RComplete, 1, OOk}, []int{RComplete, 1, []int{OPartial, OOk, OErrAfter}[r.Intn(3)]},
+			[]int{RAdvance, 300}, []int{RComplete, 1, OOk}, []int{RComplete, 1, OOk})
+	}
 	for i := 0; i < n; i++ {
 		x := r.Intn(100)
 		switch {
